@@ -43,6 +43,20 @@ def regenerate():
         rc, out = sh([sys.executable, os.path.join(ROOT, 'tools/rs2lean.py'), REPO, os.path.join(LEAN, 'LLFreeV/Gen')])
     return rc == 0, out
 
+def gen_deps(prop):
+    """names of the generated modules (`LLFreeV.Gen.X`) in the import closure of the property module"""
+    seen, todo, gens = set(), [f'LLFreeV.Props.{prop}'], set()
+    while todo:
+        m = todo.pop()
+        if m in seen: continue
+        seen.add(m)
+        path = os.path.join(LEAN, m.replace('.', '/') + '.lean')
+        if not os.path.exists(path): continue
+        for imp in re.findall(r'^import\s+(LLFreeV\.[\w.]+)', open(path).read(), re.M):
+            if imp.startswith('LLFreeV.Gen.'): gens.add(imp.split('.')[-1])
+            todo.append(imp)
+    return gens
+
 def theorems_of(prop):
     path = os.path.join(LEAN, 'LLFreeV/Props', prop + '.lean')
     if not os.path.exists(path): return []
@@ -293,7 +307,11 @@ def main():
     known_hits = []
 
     gen_ok, gen_out = regenerate()
-    if not gen_ok:
+    # a generator that cannot translate the current source breaks the obligations of the
+    # properties whose theorems import its module (the stale module is not trusted), not of others
+    gen_failed = set(re.findall(r'rs2lean: (\w+): TRANSLATE-ERROR', gen_out))
+    if not gen_ok and not gen_failed: gen_failed = {'?'}
+    if not gen_ok and (gen_failed & (gen_deps(prop) | {'?'})):
         problems.append(('translator', 'rs2lean could not translate the current source: ' + gen_out.strip()[-600:],
                          {'kind': 'proof', 'broken': 'translator tools/rs2lean.py', 'log': gen_out[-2000:]}))
     pr = prove(prop, tier)
